@@ -7,7 +7,9 @@ writer emits (binary: save::format_data_type, JSON: column_to_json) is mapped ba
 variant by the reader's decision list (binary::catalog::parse_data_type, json::parse_data_type),
 and the writer consumes every field of the variant; (d) the writers read every field of the
 persisted index definition and of the column triple (name, type, nullability), and the reader does
-not fill a persisted field with a constant; (e) load order mirrors save order.
+not fill a persisted field with a constant; (e) load order mirrors save order; (f) every native loader passes, on every Ok path, through code that
+rebuilds the user-defined indexes; (g) the temporal arms of the value writer hand the type's own Display text to
+the reader's FromStr (sibling arms agree); (h) no float->integer cast on the reader side.
 Does NOT decide equality of values after Display/FromStr (C22) or query results after reload."""
 import re
 from ..engine.facts import callee_name
@@ -324,3 +326,76 @@ def run(ctx):
         for x, y in zip(blocks, blocks[1:]):
             if not g.dominates(x, y):
                 ctx.finding(f'e/{nm.rsplit("::",1)[1]}/order', f'{nm.rsplit("::",1)[1]}: section order changed ({seq})', f.loc)
+
+
+    # ---------------------------------------------------------------- (f) loaders restore user-defined indexes
+    from ..engine.callgraph import CallGraph
+    from ..engine.paths import ok_exit_reachable
+    from ..engine.symexpr import Sym
+    ctx.rule('C18.f', 'Database::load_binary, load_compressed and load_json pass, on every path to an Ok return after the catalog was read, '
+             'a call from which Database::rebuild_indexes is reachable (index definitions are persisted, index contents are rebuilt)')
+    cg = CallGraph(prog)
+    RB = {'vibesql_storage::database::core::Database::rebuild_indexes', 'vibesql_storage::database::operations::Operations::rebuild_indexes'}
+    CI = {'vibesql_storage::database::core::Database::create_index'}
+    reach_rb = set(); reach_ci = set()
+    for f in prog.fns.values():
+        if f.unit == 'vibesql_storage':
+            r = {prog.fns[p_].nice for p_ in cg.reach([f.path]) if p_ in prog.fns}
+            if r & RB:
+                reach_rb.add(f.nice)
+            if r & CI:
+                reach_ci.add(f.nice)
+    loaders = [f for f in prog.fns.values() if f.unit == 'vibesql_storage' and not f.is_closure() and f.nice.startswith(P)
+               and re.search(r'Database>::load_(binary|compressed|json)$', f.nice)]
+    ctx.floor('C18.f native loaders', len(loaders), 3)
+    for f in sorted(loaders, key=lambda f: f.nice):
+        # the JSON loader inserts the rows first and creates the indexes afterwards (create_index builds from the stored rows);
+        # the binary loaders create the indexes with the catalog (on empty tables) and must rebuild them after the data section
+        ok_set = (reach_rb | RB | reach_ci | CI) if f.nice.endswith('load_json') else (reach_rb | RB)
+        blocks = {i for i, t in f.calls() if (callee_name(t) or '') in ok_set}
+        ctx.instance(f'f/{f.nice.rsplit("::",1)[1]}', {'rule': 'C18.f', 'fn': f.nice, 'restoring_calls': len(blocks)})
+        if not blocks or ok_exit_reachable(f, [0], blocks) is not None:
+            ctx.finding(f'f/{f.nice.rsplit("::",1)[1]}', f'{f.nice.rsplit("::",1)[1]} can return a database whose user-defined indexes were never rebuilt: index '
+                        'definitions are there, index contents are empty, and index-driven queries find nothing', f.loc)
+
+    # ---------------------------------------------------------------- (g) temporal arms use the type's Display
+    ctx.rule('C18.g', 'write_sql_value: the Date / Time / Timestamp / Interval arms write ToString::to_string of the payload (the text the '
+             'reader hands to FromStr of the same type); the four sibling arms agree')
+    wsw = max(enum_switches(prog, wv, SV), key=lambda x: len(x['arms']))
+    wregs = switch_arm_regions(wv, wsw)
+    sym = Sym(wv)
+    WS = P + 'binary::io::write_string'
+    shapes = {}
+    for v in ('Date', 'Time', 'Timestamp', 'Interval'):
+        for i, t in wv.calls():
+            if i in wregs.get(v, ()) and (callee_name(t) or '') == WS:
+                e = sym.op(t['args'][1])
+                shapes[v] = re.sub(r'@' + v + r'\.0', '@V.0', e)
+    ctx.instance('g/temporal-writer', {'rule': 'C18.g', 'text_written': shapes})
+    ctx.require(len(shapes) == 4, f'write_sql_value: temporal arms not recognised ({shapes})')
+    for v, e in shapes.items():
+        # Sym treats to_string as a pass-through conversion: the payload itself must be what is written
+        if not re.match(r'^[A-Za-z_0-9]+@V\.0$', e):
+            ctx.finding(f'g/temporal-writer/{v}', f'write_sql_value: the {v} arm writes `{e[:100]}` instead of the value\'s own Display text; the reader '
+                        f'parses the text with <{v} as FromStr>, whose inverse is only the type\'s Display', wv.loc)
+
+    # ---------------------------------------------------------------- (h) no float->int detour on the reader side
+    ctx.rule('C18.h', 'functions of persistence::json and persistence::binary::value (reader side) contain no float-to-integer cast: integer '
+             'values are read through integer accessors; the matcher is kept live by the f64->f32 casts of the Float/Real arms')
+    live = 0
+    for f in prog.fns.values():
+        if f.unit != 'vibesql_storage' or '/tests' in f.file or '::tests::' in f.nice:
+            continue
+        if not (f.nice.startswith(P + 'json::') or f.nice.startswith(P + 'binary::value::')):
+            continue
+        for b in f.blocks:
+            for st in b['s']:
+                if 'd' in st and st['v']['r'] == 'cast':
+                    fr, to = str(st['v'].get('from')), str(st['v'].get('to'))
+                    if fr in ('f64', 'f32') and to in ('f32', 'f64'):
+                        live += 1
+                    if fr in ('f64', 'f32') and re.match(r'^[iu](8|16|32|64|128|size)$', to):
+                        ctx.finding(f'h/{f.nice}/{fr}-to-{to}', f'{f.nice}: a stored number is converted {fr} -> {to}: integers beyond 2^53 do not '
+                                    'survive the detour through a double', f'{f.file}:{st["l"]}')
+    ctx.instance('h/reader-casts', {'rule': 'C18.h', 'float_to_float_casts_seen': live})
+    ctx.floor('C18.h matcher control (f64->f32 casts on the reader side)', live, 2)
